@@ -897,7 +897,7 @@ def main():
         for name in (("n2a",) if not chk.thorough else ("n2a", "n2ab", "n3a")):
             ncfg = sn.NCONFIGS[name]
             svc.explore_eof(chk, name, on_bad, 40 if not chk.thorough else 400, configs=sn.NCONFIGS,
-                            fixture=sn.fixture_for(ncfg["nested"]),
+                            fixture=sn.fixture_for(ncfg["nested"], ncfg.get("pool", ())),
                             want=lambda r, n=ncfg["nested"]: ("ref:vmod.C<%s>" % n[r]) if r in n else svc.tag(r))
     for i in range(0, len(traces), 1500):
         validate(chk, traces[i:i + 1500], "fault runs %d.." % (nval + i))
